@@ -1,13 +1,13 @@
 SPECIFICATION MCSpec
 CONSTANTS
-  U = 5
-  MaxOps = 22
+  U = 8
+  MaxOps = 24
   FailCs = {}
-  FailNs = {1}
-  PruneTs = {0, 150, 350}
+  FailNs = {}
+  PruneTs = {}
   RgsSnaps = {}
-  ResolveCs = {}
-  WithReload = TRUE
+  ResolveCs = {1}
+  WithReload = FALSE
 CONSTRAINT Bound
 VIEW View
 INVARIANT OnlyAuthentic
